@@ -299,6 +299,7 @@ def inverse_rules(repo, rep):
                 caps.append(c.comparators[0].value + (1 if isinstance(c.ops[0], ast.LtE) else 0))
     elif isinstance(L.node, ast.For):
         from . import vincenty as V
+        V.module_consts(f.module)
         k_ = V.loop_cap(L.node)
         if isinstance(k_, int):
             caps.append(k_)
